@@ -1234,6 +1234,9 @@ def message_type_order(p) -> tuple[dict | None, str]:
             return None
         if isinstance(e, ast.Subscript) and isinstance(e.value, ast.Name) and isinstance(e.slice, ast.Name) and e.slice.id == who:
             return ("table", e.value.id)
+        if isinstance(e, ast.Subscript) and isinstance(e.value, ast.Name) and isinstance(e.slice, ast.Attribute) and isinstance(e.slice.value, ast.Name) \
+                and e.slice.value.id == who and e.slice.attr in ("value", "name"):
+            return ("table:" + e.slice.attr, e.value.id)       # keyed by the member's value / name
         return None
     a, b = pos_expr(l, me), pos_expr(r, other)
     if a is None or b is None or a != b:
@@ -1247,9 +1250,20 @@ def message_type_order(p) -> tuple[dict | None, str]:
         return None, f"table `{a[1]}` not found at module level"
     v = tdef.value
 
+    by = a[0].split(":")[1] if ":" in a[0] else None
+    values = {v: k for k, v in p.enum_values("MessageType").items()} if by == "value" else {}
+
     def member(e):
         ch = attr_chain(e)
-        return ch[1] if ch and len(ch) == 2 and ch[0] == "MessageType" else None
+        if ch and len(ch) == 2 and ch[0] == "MessageType":
+            return ch[1]
+        if ch and len(ch) == 3 and ch[0] == "MessageType" and ch[2] in ("value", "name"):
+            return ch[1]
+        if by == "value" and isinstance(e, ast.Constant) and e.value in values:
+            return values[e.value]
+        if by == "name" and isinstance(e, ast.Constant) and e.value in members:
+            return e.value
+        return None
     if isinstance(v, (ast.List, ast.Tuple)):
         names = [member(e) for e in v.elts]
         if None in names:
@@ -1289,8 +1303,9 @@ def message_type_order_rule(ctx: Ctx, rule: str = "ORDER") -> None:
     pos, how = message_type_order(p)
     members = p.enum_order("MessageType")
     if pos is None:
-        ctx.undetermined(rule, "MessageType.__lt__: strict total order on all kinds", f"{how}: idiom not recognised, not judged")
-        return
+        # everything that sorts simultaneous events rests on this order: an ordering the analysis cannot read is not waved through
+        from ..model import AnalysisError as _AE
+        raise _AE(f"MessageType.__lt__: the order of message kinds could not be read from the code ({how})")
     missing = [m for m in members if m not in pos]
     ctx.check(not missing, rule, f"MessageType.__lt__ ({how}) knows every message kind", function=lt.qualname,
               construct="the ordering of message kinds does not cover every kind",
